@@ -28,6 +28,14 @@ def is_wr(name):
     return name == WR or (name.endswith(">::write_response") and " as microscpi::response::Response" in name)
 
 
+def from_self(t):
+    """t is `self` seen through borrowing views only (as_str, as_slice, as_ref, deref, as_bytes ...)."""
+    t = strip_sites(t)
+    while t[0] == "call" and t[1].split("::")[-1] in ("as_str", "as_slice", "as_ref", "deref", "borrow", "as_bytes", "as_mut_slice") and len(t[2]) == 1:
+        t = t[2][0]
+    return t == SELF
+
+
 def resp(ty):
     return "<%s as microscpi::response::Response>::write_response" % ty
 
@@ -122,36 +130,43 @@ def rule_F(ck, lib):
         tr = trace(ex[0])
         ck.judge(len(ex) == 1 and len(tr) == 1 and tr[0][0] == "write_str" and tr[0][1] == ("tproj", SELF, 0), "C04-F", "characters:bare", "Characters -> bare payload",
                  "Characters response is %s" % [(o, show_term(d)) for o, d, _ in tr])
-    # floats: decision table
-    want = {("nan",): "9.91E+37", ("inf", "neg"): "-9.9E+37", ("inf", "pos"): "9.9E+37", ("finite",): "{}"}
+    # floats: decision table, evaluated per float class (so that any arrangement of the tests - is_nan / is_infinite /
+    # is_finite / is_sign_negative, nested ifs, early returns, a match on a tuple of them - is read the same way)
+    classes = {
+        "nan": {"is_nan": True, "is_infinite": False, "is_finite": False, "is_normal": False},
+        "+inf": {"is_nan": False, "is_infinite": True, "is_finite": False, "is_sign_negative": False, "is_sign_positive": True, "is_normal": False},
+        "-inf": {"is_nan": False, "is_infinite": True, "is_finite": False, "is_sign_negative": True, "is_sign_positive": False, "is_normal": False},
+        "finite": {"is_nan": False, "is_infinite": False, "is_finite": True},
+    }
+    want = {"nan": {"9.91E+37"}, "+inf": {"9.9E+37"}, "-inf": {"-9.9E+37"}, "finite": {"{}"}}
     tables = {}
     for t in ("f32", "f64"):
         ex, ps = summ(ck, lib, resp(t), "C04-F")
         if ex is None:
             continue
-        tbl = {}
+        tbl = {k: set() for k in classes}
+        unknown = []
         for x in ex:
             atoms = {}
             for c in x.conds:
                 if c[0] == "true" and c[1][0] == "call" and c[1][2] == (SELF,):
                     atoms[c[1][1].split("::")[-1]] = c[2]
+                elif c[0] == "true":
+                    unknown.append(show_term(c[1]))
             tr = trace(x)
             out = None
             if len(tr) == 1 and tr[0][0] == "write_str" and tr[0][1][0] == "lit":
                 out = tr[0][1][2]
             elif len(tr) == 1 and tr[0][0] == "write_fmt" and display_self(fmtdec.decode(tr[0][1])):
                 out = "{}"
-            if atoms.get("is_nan"):
-                k = ("nan",)
-            elif atoms.get("is_nan") is False and atoms.get("is_infinite") and atoms.get("is_sign_negative") is not None:
-                k = ("inf", "neg" if atoms["is_sign_negative"] else "pos")
-            elif atoms.get("is_nan") is False and atoms.get("is_infinite") is False:
-                k = ("finite",)
             else:
-                k = tuple(sorted(atoms.items()))
-            tbl[k] = out
+                out = "?" + str([(o, show_term(d) if d else None) for o, d, _ in tr])
+            for k, asg in classes.items():
+                if all(asg.get(a, v) == v for a, v in atoms.items()) and all(a in asg or a in ("is_sign_negative", "is_sign_positive") for a in atoms):
+                    tbl[k].add(out)
         tables[t] = tbl
-        ck.judge(tbl == want, "C04-F", "float:%s:table" % t, "%s: %s" % (t, tbl), "%s sentinel table is %s, expected %s" % (t, tbl, want))
+        ck.judge(tbl == want and not unknown, "C04-F", "float:%s:table" % t, "%s: %s" % (t, {k: sorted(v) for k, v in tbl.items()}),
+                 "%s sentinel table is %s, expected %s%s" % (t, {k: sorted(v) for k, v in tbl.items()}, {k: sorted(v) for k, v in want.items()}, (" (conditions not understood: %s)" % unknown[:3]) if unknown else ""))
     ck.judge(tables.get("f32") == tables.get("f64"), "C04-F", "float:siblings", "f32 and f64 agree", "f32 and f64 disagree: %s" % tables)
     # Arbitrary
     ex, ps = summ(ck, lib, resp("microscpi::response::Arbitrary<'_>"), "C04-F")
@@ -164,8 +179,13 @@ def rule_F(ck, lib):
             tr = trace(x)
             pos = None
             for c in x.conds:
-                if c[0] == "true" and c[1][0] == "bin" and c[1][1] == "Gt" and strip_sites(c[1][2]) == ("call", "core::slice::len", (data,)) and c[1][3] == ("lit", "int", 0):
-                    pos = c[2]
+                if c[0] == "true" and c[1][0] == "bin" and strip_sites(c[1][2]) == ("call", "core::slice::len", (data,)) and c[1][3] == ("lit", "int", 0):
+                    if c[1][1] in ("Gt", "Ne"):
+                        pos = c[2]
+                    elif c[1][1] in ("Eq", "Le"):
+                        pos = not c[2]
+                if c[0] == "true" and c[1][0] == "call" and c[1][1].endswith("::is_empty") and c[1][2] == (data,):
+                    pos = not c[2]
             if pos:
                 n_ok += 1
                 ok = len(tr) == 2 and tr[0][0] == "write_fmt" and tr[1][0] == "write_bytes" and tr[1][1] == data
@@ -223,7 +243,7 @@ def rule_F(ck, lib):
                 ok = False
                 why.append("loop body does not distinguish the first element")
                 continue
-            okit = src[0] == "call" and src[1].endswith("::enumerate") and src[2][0][0] == "call" and src[2][0][1].endswith("::iter") and src[2][0][2][0] == SELF
+            okit = src[0] == "call" and src[1].endswith("::enumerate") and src[2][0][0] == "call" and src[2][0][1].endswith("::iter") and from_self(src[2][0][2][0])
             want_ops = ([] if first else [("write_char", ("lit", "char", 44))]) + [("write_response", item)]
             if tr != want_ops or not okit:
                 ok = False
@@ -242,45 +262,36 @@ def rule_F(ck, lib):
 
 
 def rule_Q(ck, lib, tag=""):
-    """string quoting"""
+    """string quoting: every string-like Response impl (helpers evaluated in place) writes '"', then the text only as the
+    segments of a split at '"' with '""' between consecutive segments, then '"'."""
     strs = [b["def"] for b in lib.facts["bodies"] if b.get("trait") == "microscpi::response::Response" and b.get("name") == "write_response"
             and b.get("self_ty") in ("&str", "heapless::string::String<N>", "alloc::string::String", "std::string::String")]
     ck.floor("C04-Q", tag + "string Response impls", len(strs), 3 if tag else 2)
-    routines = set()
-    for s in strs:
-        ex, ps = ctx.summarize(lib, s, ck)
-        v = lib.fn_value(s)
-        # either the impl delegates to one local routine with the payload, or it is judged itself
-        calls = [e for x in ex for e in x.effects if e[0] == "call" and e[1].startswith("microscpi::") and not e[1].startswith(W) and not is_wr(e[1])]
-        if len(ex) == 1 and len(calls) == 1 and not trace(ex[0]) and ex[0].value == ("call",) + calls[0][1:]:
-            payload = calls[0][2][1] if len(calls[0][2]) > 1 else None
-            okp = payload == SELF or (payload and payload[0] == "call" and payload[1].endswith("::as_str") and payload[2] == (SELF,))
-            ck.judge(okp, "C04-Q", tag + "delegates:%s" % s.split(" as ")[0].strip("<"), "delegates to %s with its text" % calls[0][1].split("::")[-1], "delegates with %s" % (show_term(payload) if payload else None))
-            routines.add(calls[0][1])
-        else:
-            routines.add(s)
-    ck.judge(len(routines) == 1, "C04-Q", tag + "one-routine", "all string types share %s" % sorted(routines), "string types do not share one quoting routine: %s" % sorted(routines))
-    for r in sorted(routines):
+    for r in sorted(strs):
         ex, ps = ctx.summarize(lib, r, ck)
         if not ck.anchor("C04-Q", r, ex):
             continue
-        b = lib.body(r)
-        payload = ("param", b["params"][-1].get("name")) if b.get("trait") is None else SELF
+        # the text being quoted: what is split at the quote character (must be `self` seen through a view)
+        payload = SELF
+        for x in ex:
+            for e in x.effects:
+                if e[0] == "call" and e[1].split("::")[-1] == "split" and len(e[2]) == 2 and from_self(e[2][0]):
+                    payload = strip_sites(e[2][0])
         problems = []
         n_seg = 0
         for x in ex:
             tr = trace(x)
-            # classify data of each op
             ops = []
             for (o, d, site) in tr:
                 k = classify(d, o, payload)
                 ops.append((k, site))
                 if k == "RAW":
-                    problems.append("the whole payload (or something derived from it other than a segment between quotes) reaches the writer at %s: `%s`" % (site, show_term(d)))
+                    problems.append("the whole text (or something derived from it other than a segment between quotes) reaches the writer at %s: `%s`" % (site, show_term(d)))
                 if k == "OTHER":
                     problems.append("unexpected data written at %s: %s(%s)" % (site, o, show_term(d)))
             seq = [k for k, _ in ops]
             after = [k for k, _ in classify_after_head(x, tr, payload)]
+            has_head = any(e[0] == "loop_head" for e in x.effects)
             if x.kind == "backedge":
                 if "SEG" in after:
                     n_seg += 1
@@ -291,18 +302,20 @@ def rule_Q(ck, lib, tag=""):
                             problems.append("a segment is written in the loop without a doubled quote before it (and not known to be the first): %s" % after)
                     elif first is True:
                         problems.append("a doubled quote is written before the first segment")
-            if success(x):
+            if success(x) or (x.kind == "return" and x.value[0] == "call" and x.value[1].startswith(W)):
                 if not seq or seq[-1] != "Q1":
                     problems.append("success path does not end with the closing quote: %s" % seq)
-            if seq and "loop_head" and any(e[0] == "loop_head" for e in x.effects):
-                pre = [classify(d, o, payload) for (o, d, s_) in tr][:len(seq) - len(after)]
-                if pre[:1] != ["Q1"]:
-                    problems.append("the opening quote is not the first thing written: %s" % pre)
-            elif seq and seq[0] != "Q1":
-                problems.append("the opening quote is not the first thing written: %s" % seq)
+            pre = seq[:len(seq) - len(after)] if has_head else seq
+            if pre and pre[0] != "Q1":
+                problems.append("the opening quote is not the first thing written: %s" % pre)
+            # a first segment written before the loop (peeled first iteration) is fine; a second one there is not
+            if has_head and pre.count("SEG") > 1:
+                problems.append("several segments written without a doubled quote between them: %s" % pre)
+            if pre.count("SEG") == 1:
+                n_seg += 1
         if n_seg == 0 and not problems:
-            problems.append("no path writes the payload as segments between quotes")
-        ck.judge(not problems, "C04-Q", tag + "quoting:%s" % r.split("::")[-1], "'\"' + segments of split('\"') joined by '\"\"' + '\"'",
+            problems.append("no path writes the text as segments between quotes")
+        ck.judge(not problems, "C04-Q", tag + "quoting:%s" % r.split(" as ")[0].strip("<"), "'\"' + segments of split('\"') joined by '\"\"' + '\"'",
                  "; ".join(sorted(set(problems))[:4]), data=[pathsum.show_exit(x)[:600] for x in ex][:6])
 
 
@@ -432,7 +445,17 @@ def rule_W(ck, lib, tag=""):
                 if c == W + "write_char":
                     a = hir.strip(xn["args"][0])
                     ok = a.get("k") == "Lit" and a["lit"]["t"] == "char" and a["lit"]["v"] < 128
-                    ck.judge(ok, "C04-W", tag + "write_char-ascii:%s#%d" % (b["def"].split("::")[-1], n), "write_char(%r)" % (chr(a["lit"]["v"]) if ok else "?"),
+                    detail = "write_char(%r)" % (chr(a["lit"]["v"]) if ok else "?")
+                    if not ok:
+                        # not a literal in the source: every value it can take on any path must be an ASCII literal
+                        try:
+                            ex_, ps_ = ctx.summarize(lib, b["def"], ck)
+                            vals = [e[2][1] for x_ in (ex_ or []) for e in x_.effects if e[0] == "call" and e[1] == W + "write_char" and e[3] == hir.loc(xn)]
+                            ok = bool(vals) and all(v[0] == "lit" and v[1] == "char" and v[2] < 128 for v in vals)
+                            detail = "write_char(%s)" % sorted({chr(v[2]) for v in vals if v[0] == "lit"})
+                        except pathsum.Unsupported:
+                            ok = False
+                    ck.judge(ok, "C04-W", tag + "write_char-ascii:%s#%d" % (b["def"].split("::")[-1], n), detail,
                              "write_char is given %s: the shipped writers store `c as u8`, exact only for ASCII literals" % hir.show(a), hir.loc(xn))
     ck.floor("C04-W", tag + "writer call sites", n, 25)
     # shipped Write impls: every method either appends exactly its argument or fails
